@@ -632,3 +632,94 @@ pub fn err_name(e: &Error) -> String {
 	let d = format!("{:?}", e);
 	d.split(|c: char| !c.is_alphanumeric()).next().unwrap_or("").to_string()
 }
+
+// ---------------------------------------------------------------------------- reading real values back
+
+pub fn dt_of_real(t: &OffsetDateTime) -> Dt {
+	Dt {
+		y: t.year(),
+		mo: t.month() as u8,
+		d: t.day(),
+		h: t.hour(),
+		mi: t.minute(),
+		s: t.second(),
+		ns: t.nanosecond(),
+		off: t.offset().whole_seconds(),
+	}
+}
+
+pub fn dn_of_real(dn: &DistinguishedName) -> Dn {
+	Dn(dn.iter().map(|(t, v)| (DnT::of_real(t), DnV::of_real(v))).collect())
+}
+
+pub fn san_of_real(s: &SanType) -> San {
+	match s {
+		SanType::Rfc822Name(n) => San::Rfc822(n.as_str().to_string()),
+		SanType::DnsName(n) => San::Dns(n.as_str().to_string()),
+		SanType::URI(n) => San::Uri(n.as_str().to_string()),
+		SanType::IpAddress(a) => San::Ip(*a),
+		SanType::OtherName((o, OtherNameValue::Utf8String(v))) => San::Other(o.clone(), v.clone()),
+		_ => San::Dns("<unknown san variant>".into()),
+	}
+}
+
+pub fn subtree_of_real(s: &GeneralSubtree) -> Subtree {
+	match s {
+		GeneralSubtree::Rfc822Name(n) => Subtree::Rfc822(n.clone()),
+		GeneralSubtree::DnsName(n) => Subtree::Dns(n.clone()),
+		GeneralSubtree::DirectoryName(d) => Subtree::DirName(dn_of_real(d)),
+		GeneralSubtree::IpAddress(CidrSubnet::V4(a, m)) => Subtree::Ip4(a.to_vec(), m.to_vec()),
+		GeneralSubtree::IpAddress(CidrSubnet::V6(a, m)) => Subtree::Ip6(a.to_vec(), m.to_vec()),
+		_ => Subtree::Dns("<unknown subtree variant>".into()),
+	}
+}
+
+impl PCert {
+	pub fn of_real(p: &CertificateParams) -> PCert {
+		PCert {
+			nb: dt_of_real(&p.not_before),
+			na: dt_of_real(&p.not_after),
+			serial: p.serial_number.as_ref().map(|s| s.to_bytes()),
+			san: p.subject_alt_names.iter().map(san_of_real).collect(),
+			dn: dn_of_real(&p.distinguished_name),
+			ca: match &p.is_ca {
+				IsCa::NoCa => Ca::No,
+				IsCa::ExplicitNoCa => Ca::ExplicitNo,
+				IsCa::Ca(BasicConstraints::Unconstrained) => Ca::Ca(None),
+				IsCa::Ca(BasicConstraints::Constrained(n)) => Ca::Ca(Some(*n)),
+			},
+			ku: p.key_usages.clone(),
+			eku: p.extended_key_usages.clone(),
+			nc: p.name_constraints.as_ref().map(|nc| {
+				(nc.permitted_subtrees.iter().map(subtree_of_real).collect(), nc.excluded_subtrees.iter().map(subtree_of_real).collect())
+			}),
+			crldp: p.crl_distribution_points.iter().map(|d| d.uris.clone()).collect(),
+			custom: p
+				.custom_extensions
+				.iter()
+				.map(|e| Custom { oid: e.oid_components().collect(), critical: e.criticality(), content: e.content().to_vec() })
+				.collect(),
+			aki: p.use_authority_key_identifier_extension,
+			kid: match &p.key_identifier_method {
+				KeyIdMethod::PreSpecified(b) => Kid::Pre(b.clone()),
+				#[cfg(not(feature = "nocrypto"))]
+				KeyIdMethod::Sha256 => Kid::Sha256,
+				#[cfg(not(feature = "nocrypto"))]
+				KeyIdMethod::Sha384 => Kid::Sha384,
+				#[cfg(not(feature = "nocrypto"))]
+				KeyIdMethod::Sha512 => Kid::Sha512,
+				_ => Kid::Pre(vec![]),
+			},
+		}
+	}
+	/// canonical text of a *real* parameter value (no round trip through rcgen constructors)
+	pub fn sexp_raw(&self) -> String {
+		// `sexp()` rebuilds the name through rcgen to enumerate it; here the name already is an
+		// enumeration
+		let mut s = self.clone();
+		let items: Vec<String> = s.dn.0.iter().map(|(t, v)| list(&[t.sexp(), v.sexp()])).collect();
+		s.dn = Dn(vec![]);
+		let txt = s.sexp();
+		txt.replacen("(dn)", &tagged("dn", &items), 1)
+	}
+}
